@@ -108,6 +108,51 @@ def sync():
     return P
 
 
+def sync_big():
+    """Larger shapes, sampled under the built-in schedulers (their trees are too big to enumerate quickly)."""
+    P = []
+    w = [op("lock", o=0, w=0), op("cv_wait", o=0, v=0, w=0), op("unlock", w=0)]
+    # three waiters, two notify_one, then a clean-up broadcast (the scenario of the source comment in condvar.rs)
+    P.append(prog(150, "corpus_sync_big", [
+        [op("spawn", v=1), op("spawn", v=2), op("notify_one", o=0), op("spawn", v=3), op("notify_one", o=0),
+         op("load", o=0), op("notify_all", o=0), op("join", v=1), op("join", v=2), op("join", v=3)],
+        list(w) + [op("fadd", o=0, v=1)], list(w) + [op("fadd", o=0, v=1)], list(w) + [op("fadd", o=0, v=1)]], nmutex=1, ncv=1, atomics=[0]))
+    # a late waiter and racing notifiers
+    P.append(prog(151, "corpus_sync_big", [
+        [op("spawn", v=1), op("spawn", v=2), op("spawn", v=3), op("yield"), op("notify_one", o=0), op("join", v=3),
+         op("notify_all", o=0), op("join", v=1), op("join", v=2)],
+        list(w), list(w), [op("notify_one", o=0), op("lock", o=0, w=0), op("unlock", w=0)]], nmutex=1, ncv=1))
+    # unpark while the target is blocked in join / recv / barrier, then it parks
+    P.append(prog(152, "corpus_sync_big", [
+        [op("spawn", v=1), op("join", v=1), op("park"), op("load", o=0)],
+        [op("unpark", v=0), op("store", o=0, v=1)]], atomics=[0]))
+    P.append(prog(153, "corpus_sync_big", [
+        [op("clone_tx", o=0, v=0, w=1), op("spawn", v=1), op("recv", o=0), op("park"), op("join", v=1)],
+        [op("unpark", v=0), op("send", o=0, v=5, w=1)]], chans=[-1]))
+    P.append(prog(154, "corpus_sync_big", [
+        [op("spawn", v=1), op("spawn", v=2), op("barrier_wait", o=0), op("park"), op("join", v=1), op("join", v=2)],
+        [op("unpark", v=0), op("barrier_wait", o=0)], [op("yield"), op("unpark", v=0)]], barriers=[2]))
+    return P
+
+
+def sync_pb():
+    """Four-task scenarios explored systematically with a preemption bound."""
+    P = []
+    w = [op("lock", o=0, w=0), op("cv_wait", o=0, v=0, w=0), op("unlock", w=0)]
+    # two waiters, notify_one, a late third waiter, a second notify_one: exactly two waiters may return
+    P.append(prog(155, "corpus_sync_pb", [[op("spawn", v=1), op("spawn", v=2), op("notify_one", o=0), op("spawn", v=3), op("notify_one", o=0)],
+                                          list(w), list(w), list(w)], nmutex=1, ncv=1))
+    # three arrivals at a barrier of two, reused
+    P.append(prog(156, "corpus_sync_pb", [[op("spawn", v=1), op("spawn", v=2), op("spawn", v=3), op("barrier_wait", o=0)],
+                                          [op("barrier_wait", o=0)], [op("barrier_wait", o=0)], [op("barrier_wait", o=0), op("load", o=0)]],
+                  barriers=[2], atomics=[0]))
+    # three racing call_once with different initialisers
+    P.append(prog(157, "corpus_sync_pb", [[op("spawn", v=1), op("spawn", v=2), op("spawn", v=3), op("load", o=0)],
+                                          [op("call_once", o=0, v=1, w=0), op("load", o=0)], [op("call_once", o=0, v=2, w=0), op("load", o=0)],
+                                          [op("call_once", o=0, v=3, w=0), op("load", o=0)]], nonce=1, atomics=[0]))
+    return P
+
+
 def mpsc():
     P = []
     # rendezvous hand-off with try variants
@@ -152,4 +197,4 @@ def pct_bugs():
     return out
 
 
-CORPUS = {"corpus_deadlock": deadlock, "corpus_locks": locks, "corpus_sync": sync, "corpus_mpsc": mpsc}
+CORPUS = {"corpus_sync_pb": sync_pb, "corpus_sync_big": sync_big, "corpus_deadlock": deadlock, "corpus_locks": locks, "corpus_sync": sync, "corpus_mpsc": mpsc}
